@@ -175,6 +175,19 @@ func (m *MutexState) Lock() {
 	m.locked = true
 }
 
+// TryLock acquires the mutex exclusively if it is free.
+func (m *MutexState) TryLock() bool {
+	if sch == nil {
+		return m.real.TryLock()
+	}
+	Yield("mutex.TryLock")
+	if m.locked || m.readers > 0 {
+		return false
+	}
+	m.locked = true
+	return true
+}
+
 // Unlock releases the mutex.
 func (m *MutexState) Unlock() {
 	if sch == nil {
